@@ -2,6 +2,7 @@ import DimodProofs.ReduceBK
 import DimodProofs.SpinAux
 import DimodProofs.BKInv
 import DimodProofs.BKLabels
+import DimodProofs.BKQue
 
 /-! # C15 — higher-order reduction is exact on consistent assignments; the penalty is never negative
 
@@ -89,8 +90,8 @@ theorem bookkeeping_index_invariant (s : BK) (choice : Pair) (s' : BK) (h : bkSt
     its `constraints` are a legal sequence of semantic choices `(u, v, p)` (`p` fresh), its `reduced_terms`
     are — up to order — the degree-≤-2 terms of the semantic reduction on that sequence, and its index
     lists exactly the terms the semantic reduction still has to reduce.
-    (Not claimed: that the loop never hits a missing key, i.e. never returns `none`, for a valid oracle —
-    the `que` counters are not part of the invariant; the driver runs the coded layer on every case.) -/
+    (That the loop never hits a missing key for any pop sequence the code can produce is
+    `reduce_loop_never_raises` below.) -/
 theorem bookkeeping_refines_semantic (poly : List (LTerm × Rat)) (vars : List Label) (choices : List Pair) (s : BK)
     (hok : TermsOK poly) (hvars : ∀ tb ∈ poly, ∀ w ∈ tb.1, w ∈ vars) (hch : ∀ c ∈ choices, c.1 ≠ c.2)
     (h : bkReduce poly vars choices = some s) :
@@ -127,6 +128,72 @@ theorem bookkeeping_energy_consistent (poly : List (LTerm × Rat)) (vars : List 
   · rw [polyEnergy_perm x _ _ h4.red]; grind
   · intro tb htb
     exact reduce_degree_le_two poly named tb (h4.red.mem_iff.1 htb)
+
+/-! ## the count queue `que`: the coded loop never raises and terminates -/
+
+/-- **`que` mirrors `idx`, and the loop never raises.**  Start `reduce_binary_polynomial` on a polynomial
+    with duplicate-free, pairwise different terms, and let `choices` be *any* sequence of pops the code
+    can make (`Red.OracleOK`: each pair is a member of `que[max(que)]` of the state it is popped from —
+    `set.pop()` is arbitrary).  Then none of the accesses `idx[pair]`, `que[count].remove(pair)`,
+    `del idx_pair[term]`, `idx.pop(pair)`, `max(que)` fails (`bkReduce` is `some`), and in the state reached
+    * `pair ∈ que[n]` exactly when `n = len(idx[pair]) > 0` (the counters are exact),
+    * every popped pair had two different members,
+    * the number of iterations is at most the total degree of the higher-order terms,
+    * if `idx` is not empty there is again a pair to pop (`que` is not empty and `que[max(que)]` neither),
+    * all `reduced_terms` have degree ≤ 2. -/
+theorem reduce_loop_never_raises (poly : List (LTerm × Rat)) (vars : List Label) (choices : List Pair)
+    (hok : TermsOK poly) (hvars : ∀ tb ∈ poly, ∀ w ∈ tb.1, w ∈ vars)
+    (ho : OracleOK (BK.init poly vars) choices) :
+    ∃ s, bkReduce poly vars choices = some s
+      ∧ (∀ n p, inQue s.que n p ↔ (0 < n ∧ (absIdx s.idx p).length = n))
+      ∧ (∀ c ∈ choices, c.1 ≠ c.2)
+      ∧ choices.length ≤ (HiLo.init poly).measure
+      ∧ (s.idx ≠ [] → ∃ c, inQue s.que (maxKey s.que) c)
+      ∧ (∀ tb ∈ s.reduced, tb.1.length ≤ 2) := by
+  obtain ⟨s, hl', h, hr, hm, hch⟩ := bkRun_no_raise choices (BK.init poly vars) (HiLo.init poly) (runQ_init poly vars hok hvars) ho
+  refine ⟨s, h, ?_, hch, by omega, fun hidx => exists_choice s hl' hr hidx, ?_⟩
+  · intro n p
+    rw [hr.que.char n p]
+    constructor
+    · rintro ⟨_, h2⟩; exact h2
+    · intro h2; exact ⟨not_inNew_nil p, h2⟩
+  · intro tb htb
+    exact hr.lo tb (hr.run.red.mem_iff.1 htb)
+
+/-- **the coded loop terminates with `idx` empty**: some run of the code (and by
+    `reduce_loop_never_raises` every run continues until then) reaches `while idx:` with `idx` empty -/
+theorem reduce_loop_terminates (poly : List (LTerm × Rat)) (vars : List Label)
+    (hok : TermsOK poly) (hvars : ∀ tb ∈ poly, ∀ w ∈ tb.1, w ∈ vars) :
+    ∃ choices s, OracleOK (BK.init poly vars) choices ∧ bkReduce poly vars choices = some s ∧ s.idx = [] :=
+  bkRun_total _ (BK.init poly vars) (HiLo.init poly) (runQ_init poly vars hok hvars) (Nat.le_refl _)
+
+/-- hence **`make_quadratic` and `make_quadratic_cqm` never raise**: for every input polynomial, on every
+    complete run of the loop (any pops the code can make, until `idx` is empty), both return a model -/
+theorem make_quadratic_never_raises (vt : VT) (strength : Rat) (raw : List (List Label × Rat)) (choices : List Pair)
+    (ho : OracleOK (BK.init (normPoly vt raw) (polyVars (normPoly vt raw))) choices)
+    (hdone : ∀ s, bkReduce (normPoly vt raw) (polyVars (normPoly vt raw)) choices = some s → s.idx = []) :
+    (∃ r, makeQuadratic vt strength raw choices = some r) ∧ (∃ r, makeQuadraticCqm vt raw choices = some r) := by
+  obtain ⟨s, hs, _, _, _, _, hdeg⟩ := reduce_loop_never_raises (normPoly vt raw) (polyVars (normPoly vt raw)) choices
+    (normPoly_ok vt raw) (polyVars_mem _) ho
+  have hidx := hdone s hs
+  obtain ⟨obj, hobj⟩ := (objectiveBag_some_iff s.reduced).2 hdeg
+  constructor
+  · unfold makeQuadratic
+    simp only [hs, hidx, hobj, List.isEmpty_nil, Bool.not_true, Bool.false_eq_true, if_false]
+    exact ⟨_, rfl⟩
+  · unfold makeQuadraticCqm
+    simp only [hs, hidx, hobj, List.isEmpty_nil, Bool.not_true, Bool.false_eq_true, if_false]
+    exact ⟨_, rfl⟩
+
+/-- and such a complete run exists for every input -/
+theorem make_quadratic_total (vt : VT) (strength : Rat) (raw : List (List Label × Rat)) :
+    ∃ choices, OracleOK (BK.init (normPoly vt raw) (polyVars (normPoly vt raw))) choices
+      ∧ (∃ r, makeQuadratic vt strength raw choices = some r) ∧ (∃ r, makeQuadraticCqm vt raw choices = some r) := by
+  obtain ⟨choices, s, ho, hs, hidx⟩ := reduce_loop_terminates (normPoly vt raw) (polyVars (normPoly vt raw))
+    (normPoly_ok vt raw) (polyVars_mem _)
+  refine ⟨choices, ho, make_quadratic_never_raises vt strength raw choices ho ?_⟩
+  intro s' hs'
+  rw [hs] at hs'; cases hs'; exact hidx
 
 /-! ## product penalties: generated tables (finite truth tables) -/
 
@@ -359,6 +426,11 @@ theorem hoc_reports_poly_energy (poly : List (LTerm × Rat)) (keep : Bool) (resp
 
 example : (bkReduce (normPoly .binary [([.int 0, .int 1, .int 2], -2), ([.int 0], -1)]) [.int 0, .int 1, .int 2] [(.int 0, .int 1)]).map
     (fun s => (s.reduced.length, s.constraints.length, s.idx.isEmpty)) = some (2, 1, true) := by decide +kernel
+
+/-- the oracle hypothesis of `reduce_loop_never_raises` is satisfiable and decidable on an instance:
+    for `-2·x0·x1·x2·x3 + x0·x1·x2` every pair has count ≥ 1, `{0,1}`, `{0,2}`, `{1,2}` have count 2 = `max(que)` -/
+example : (BK.init (normPoly .binary [([.int 0, .int 1, .int 2, .int 3], -2), ([.int 0, .int 1, .int 2], 1)])
+    [.int 0, .int 1, .int 2, .int 3]).que.map (fun e => (e.1, e.2.length)) = [(2, 3), (1, 3)] := by decide +kernel
 
 example : newProduct [.str "0*1", .int 0, .int 1] (.int 0) (.int 1) = .str "_0*1" := by decide +kernel
 
